@@ -234,7 +234,7 @@ func (propC01) Run(scI interface{}) *Outcome {
 			})
 			o.Probes["renders_compared"]++
 			o.Probes["class_"+want.Class]++
-			w.Note("obs."+got.Class, len(got.Out))
+			w.Note("obs."+got.Class, int(strHash(got.Key())&0x7fffffff))
 			if reuseBefore > 0 {
 				o.Nontrivial = true
 			}
